@@ -951,6 +951,23 @@ def run_foreign(ctx, pgpy, d, K, fast, blobs):
                 ctx.fail('foreign', 'export(import(foreign)) does not import back to the same state', cd)
             elif d.call('grammar', FUEL, hx(bytes(m2))) != '1':
                 ctx.fail('foreign', 're-export of an imported foreign message is outside the grammar', cd)
+            # a message of another producer that PGPy then SIGNS is a message PGPy builds: whatever framing its literal came with
+            # (indeterminate length included: such a packet can only be the last one, and now a signature follows it), the export
+            # must be a grammar sentence that imports to the same content, metadata and signatures, and the new signature verifies
+            if wrap is None and (rep == 0 or styles[-1] in ('old0', 'partial')):
+                sk_name = rng.choice(K.names)
+                ctx.case('foreign', ('then-signed', tuple(styles), hashlib.sha1(out).hexdigest(), sk_name), sample={'styles': styles, 'then': 'signed by ' + sk_name})
+                def sign_flow():
+                    m3 = pgpy.PGPMessage.from_blob(out)
+                    m3 |= K.k[sk_name].sign(m3, created=T0 + timedelta(seconds=2000))
+                    exp = bytes(m3)
+                    m4 = pgpy.PGPMessage.from_blob(exp)
+                    return (d.call('grammar', FUEL, hx(exp)), bytes(m4._message._contents) == stored, m4.filename == name, ts(m4._message.mtime) == case['mtime'],
+                            len(m4._signatures) == len(case['signers']) + 1, bool(K.k[sk_name].pubkey.verify(m4)))
+                o4 = outcome(sign_flow)
+                if o4 != ('ok', ('1', True, True, True, True, True)):
+                    ctx.fail('foreign', 'an imported foreign message, signed and exported, does not import back with its content, metadata and signatures '
+                             '(grammar, content, filename, time, signature count, verifies) = %r' % (o4,), dict(cd, then_signed_by=sk_name))
 
 
 def run_sequences(ctx, pgpy, d, K, fast, blobs):
